@@ -341,6 +341,31 @@ def seekabs_rules(facts, rep, rule="C02-SEEKABS"):
                                                  (s["place"]["p"] and s["place"]["p"][-1]["k"] == "deref" and "data_start" in (ee.local_name(s["place"]["l"]) or "")))]
             inner = tgt[3][0][1] if tgt[0] == "agg" and tgt[1] == "adt:Start" and tgt[3] else None
             good = inner is not None and any(canon(inner) == canon(st_) for st_ in stores)
+    if not good:
+        # the same obligation on paths (the patch may sit in a helper whose `?` exits merge before the caller's `?`: no seek then
+        # *dominates* the compressor switch, but on every path that reaches it the last seek is the one back to the data start)
+        from engine.paths import paths as _paths, PathExplosion
+        try:
+            pz = _paths(ee, max_paths=20000)
+        except PathExplosion:
+            pz = []
+        stores = [canon(norm(exe.rvalue(s["rv"], (bi, si)))) for bi, si, s in ee.stmts()
+                  if s["k"] == "assign" and [q.get("n") for q in s["place"]["p"] if q["k"] == "field"][-1:] == ["start"]]
+        through = 0
+        allgood = bool(stores)
+        for p_ in pz:
+            names = [e_[1] for e_ in p_["effects"]]
+            idx = [i_ for i_, n_ in enumerate(names) if n_.endswith("switch_to")]
+            if not idx:
+                continue
+            sk_ = [e_ for e_ in p_["effects"][:idx[0]] if e_[1].endswith("Seek::seek")]
+            if not sk_:
+                continue        # the central-only path does not move the sink
+            through += 1
+            tgt = norm(sk_[-1][2][-1]) if sk_[-1][2] else None
+            inner = tgt[3][0][1] if tgt is not None and tgt[0] == "agg" and tgt[1] == "adt:Start" and tgt[3] else None
+            allgood = allgood and inner is not None and any(canon(inner) == st_ for st_ in stores)
+        good = through >= 1 and allgood
     ok &= rep.check(good, rule, "end_extra_data:back-to-data-start", where(ee, ee.span), "after patching the extra length the sink is put back at the recorded data start",
                     "end_extra_data does not return the sink to the offset it recorded as the entry's data start")
     return ok
